@@ -124,6 +124,14 @@ func HarnessFormatRead() {
 			return
 		}
 		r = sr
+		// the same sealed image recovered as a tail (a crash before the rotation was
+		// committed): the recovered writer reports the index where the file has it
+		sw, err := f.RecoverTail(info)
+		vrt.Assert("C09.recover-sealed-image-ok", err == nil)
+		if err == nil {
+			isSealed, is, _ := sw.Sealed()
+			vrt.Assert("C09.recovered-index-start-is-the-index-frame", isSealed && is == ref.IndexStart)
+		}
 		vrt.Reach("read-sealed")
 	} else {
 		info.MaxIndex = 0
